@@ -43,6 +43,11 @@ void h_decode_gain(void)
    __CPROVER_assume(0 <= len && len <= VERIF_MAXLEN);
    if (!null_data) { data = malloc(len > 0 ? len : 1); __CPROVER_assume(data != NULL); for (i = 0; i < VERIF_MAXLEN; i++) if (i < len) data[i] = nondet_uchar(); }
    verif_K = nondet_int(); __CPROVER_assume(0 <= verif_K && verif_K < frame_size * st->channels);
+#ifdef VERIF_FIXED_PCM
+   /* the static buffer is all zeros, and 0 * factor == 0 would hide a sample that is not scaled: the sample under observation is set to 0.5
+      (a symbolic sample times a symbolic factor did not finish in 25 min; a constant power of two does) */
+   pcm[verif_K] = 0.5f;
+#endif
    g_exp_ret = nondet_double(); __CPROVER_assume(g_exp_ret > 0 && g_exp_ret < 1e6);
    g_exp_calls = 0; g_celt_calls = 0;
    ret = opus_decode_frame(st, data, len, pcm, frame_size, 0);
